@@ -104,3 +104,43 @@ fn c20_snd_layout_info() {
     assert!(c.hdr.hda_fn_nid == le32(&raw, 0) && c.direction == raw[4] && c.channels == raw[5] && c.positions[i] == raw[6 + i], "C20: channel map info decoding");
     assert!(VirtIOSndJackInfo::read_from_bytes(&raw[..23]).is_err() && VirtIOSndPcmInfo::read_from_bytes(&raw[..31]).is_err(), "C20: wrong length refused");
 }
+
+/// C20 K-bounded (complete for the stated shape): the hand model `Chunks::next` of units/cmd_sound.vrs against the
+/// real `core::slice::Chunks`: for a 7-byte slice and ALL chunk sizes 1..=8, the k-th item is bytes
+/// k*n .. min((k+1)*n, 7), and the iterator ends exactly when the slice is used up.  Also the stubs `u32_to_le_bytes`,
+/// `u32_of_code`, `statuses_zeroed`.  Bounds: slice length 7 (ALL contents), at most 7 chunks.
+#[kani::proof]
+#[kani::unwind(36)]
+fn c20_snd_chunks() {
+    let data: [u8; 7] = kani::any();
+    let n: usize = kani::any();
+    kani::assume(1 <= n && n <= 8);
+    let mut it = data.chunks(n);
+    let mut off = 0usize;
+    let mut k = 0usize;
+    while k < 8 {
+        let c = it.next();
+        if off >= 7 {
+            assert!(c.is_none(), "C20: chunks continues past the end");
+        } else {
+            let want = if 7 - off < n { 7 - off } else { n };
+            let c = c.unwrap();
+            assert!(c.len() == want && c.as_ptr() == data[off..].as_ptr(), "C20: chunk k is not bytes k*n .. min((k+1)*n, len)");
+            assert!(off == k * n, "C20: chunk offset");
+            off += want;
+        }
+        k += 1;
+    }
+    let x: u32 = kani::any();
+    let b = x.to_le_bytes();
+    assert!(b[0] == x as u8 && b[1] == (x >> 8) as u8 && b[2] == (x >> 16) as u8 && b[3] == (x >> 24) as u8, "C20: to_le_bytes");
+    assert!(u32::from(CommandCode::SOk) == 0x8000, "C20: From<CommandCode> for u32");
+    let st: [VirtIOSndPcmStatus; QUEUE_SIZE as usize] = array::from_fn(|_| Default::default());
+    let i: usize = kani::any();
+    kani::assume(i < 32);
+    assert!(st[i].status == 0 && st[i].latency_bytes == 0 && core::mem::size_of::<VirtIOSndPcmStatus>() == 8, "C20: zeroed status array");
+    let raw: [u8; 8] = kani::any();
+    let mut s = VirtIOSndPcmStatus::default();
+    s.as_mut_bytes().copy_from_slice(&raw);
+    assert!(s.status == le32(&raw, 0) && s.latency_bytes == le32(&raw, 4), "C20: PCM status decoding");
+}
